@@ -10,6 +10,7 @@ import (
 	"regexp"
 	"strconv"
 	"strings"
+	"sync"
 	"time"
 
 	"github.com/go-faster/jx"
@@ -199,6 +200,51 @@ func c13(r *lp.Run) {
 		rt(c, "conv.Float32", conv.Float32ToString, conv.ToFloat32, g, eqF32, reFloatF, shF32)
 		rt(c, "conv.StringFloat32", conv.StringFloat32ToString, conv.ToStringFloat32, g, eqF32, reFloatG, shF32)
 		rtJSON(c, "json.StringFloat32", ogenjson.EncodeStringFloat32, ogenjson.DecodeStringFloat32, g, eqF32, quoted(reFloatG), shF32)
+	}
+
+	// float32 values whose shortest text, read as a float64 first and narrowed afterwards, lands on a neighbour
+	// (double rounding); the whole float32 domain in the thorough tier
+	for _, bits := range []uint32{0x15ae43fd, 0x95ae43fd, 0x00000001, 0x007fffff, 0x00800000, 0x7f7fffff, 0x3f800001, 0x33800000, 0x4b800000} {
+		g := math.Float32frombits(bits)
+		rt(c, "conv.Float32", conv.Float32ToString, conv.ToFloat32, g, eqF32, reFloatF, shF32)
+		rt(c, "conv.StringFloat32", conv.StringFloat32ToString, conv.ToStringFloat32, g, eqF32, reFloatG, shF32)
+		rtJSON(c, "json.StringFloat32", ogenjson.EncodeStringFloat32, ogenjson.DecodeStringFloat32, g, eqF32, quoted(reFloatG), shF32)
+	}
+	if r.Thorough() {
+		var mu sync.Mutex
+		var wg sync.WaitGroup
+		bad := []uint32{}
+		const W = 16
+		for w := 0; w < W; w++ {
+			wg.Add(1)
+			go func(w int) {
+				defer wg.Done()
+				for hi := w; hi < 1<<16; hi += W {
+					for lo := 0; lo < 1<<16; lo++ {
+						bits := uint32(hi)<<16 | uint32(lo)
+						g := math.Float32frombits(bits)
+						if g != g || math.IsInf(float64(g), 0) {
+							continue
+						}
+						back, err := conv.ToFloat32(conv.Float32ToString(g))
+						back2, err2 := conv.ToStringFloat32(conv.StringFloat32ToString(g))
+						if err != nil || err2 != nil || math.Float32bits(back) != bits || math.Float32bits(back2) != bits {
+							mu.Lock()
+							if len(bad) < 5 {
+								bad = append(bad, bits)
+							}
+							mu.Unlock()
+						}
+					}
+				}
+			}(w)
+		}
+		wg.Wait()
+		r.Exhaustive("float32 text round trip", map[string]any{"values": "all 2^32 bit patterns (NaN and infinities skipped)", "helpers": "conv.Float32ToString/ToFloat32, conv.StringFloat32ToString/ToStringFloat32"})
+		r.PropCheck()
+		for _, b := range bad {
+			r.Fail(lp.PropFail{Property: "C13", What: "a float32 does not parse back from its text", Input: fmt.Sprintf("bits %08x = %v", b, math.Float32frombits(b)), Observed: conv.Float32ToString(math.Float32frombits(b)), Expected: "the same value"})
+		}
 	}
 
 	// ---- durations ----
@@ -468,7 +514,7 @@ func c13(r *lp.Run) {
 		rtJSON(c, "json.MAC", ogenjson.EncodeMAC, ogenjson.DecodeMAC, mac, eqMAC, quoted(reMAC), shw[net.HardwareAddr])
 		// URLs from components
 		u0 := url.URL{Scheme: lp.Pick(rng, []string{"http", "https", "ftp"}), Host: lp.Pick(rng, []string{"example.com", "h:8080", "[::1]:80", "a.b"}),
-			Path: lp.Pick(rng, []string{"", "/", "/a b", "/a/b", "/é", "/a%2Fb", "/x;y"}), RawQuery: lp.Pick(rng, []string{"", "q=1", "a=b&c=d", "x=%20"}), Fragment: lp.Pick(rng, []string{"", "frag", "a b"})}
+			Path: lp.Pick(rng, []string{"", "/", "/a b", "/a/b", "/é", "/a%2Fb", "/x;y"}), RawQuery: lp.Pick(rng, []string{"", "q=1", "a=b&c=d", "x=%20", "q=\"ogen\"", "path=C:\\new", "a=\\\"b", "j={\"k\":1}"}), Fragment: lp.Pick(rng, []string{"", "frag", "a b", "q\"r", "b\\s"})}
 		if rng.Chance(20) {
 			u0.User = url.UserPassword("u", "p w")
 		}
